@@ -46,6 +46,18 @@ Added in the fourth pass:
          override delegating once, and no method that activation dispatches to on the receiver (template-method hooks, resolved on
          the subclass) enters add() again;
   R19.d  Application.__init__ binds self.middlewares to a copy (the list the endpoints search cannot be edited from outside).
+Added in the fifth pass (moves across modules, modernisation):
+  every anchor is followed to the module its definition lives in now (``fi.mod``): statements, path conditions and constants are looked
+  up there; the writers of the store's state are Reservoir's own methods *by identity*; call sites of a followed function and the
+  functions on the report path are looked for across the analysed tree;
+  R19.a  the declared field order of the record type is read from ``namedtuple(..)``, a ``typing.NamedTuple`` class, a dataclass /
+         attrs class or a plain class whose constructor stores every parameter under its own name; the exceptional status key may be
+         spelt as a test (``hasattr(e, 'code')`` / a lookup with a module-level sentinel compared by identity): the code where there is
+         one, the class name where there is none;
+  R19.b  where the report is assembled inside the report-and-reset function itself (the assembling helper was dissolved), the report
+         statements are the statements that read ``<mw>.route_hits`` (or a local that only ever names that table): all of them before
+         reset() on every path, and what is returned holds what they computed;
+  R19.c  a read-only property of the store (``self._data_count``) is read through its return expression (front-end, read_properties).
 Each group runs in isolation (a gap in one does not hide violations of the others).
 Declined: sampling statistics (uniformity); totals per status over histories.
 """
@@ -58,6 +70,7 @@ from .common import (cfg_of, fkey, conds, has_cond, cond_texts, stmts_of, walk_b
                      returns_of, handler_reraises_always, stmt_of)
 from ..astutil import assigned_value
 from .c15 import next_derived, is_next_call, _guarded
+from .c15_paths import module_sentinels
 
 STATS = 'clastic.middleware.stats'
 
@@ -101,6 +114,7 @@ def run(rep):
 # ---- R19.a ---------------------------------------------------------------------------------------------------------
 def _request_records_once(rep, repo, st):
     rq = st.func('StatsMiddleware.request')
+    st = rq.mod         # (where the middleware lives now)
     cfg = cfg_of(rq)
     next_stmts = [s for s in stmts_of(rq.node) if not isinstance(s, (ast.Try, ast.If, ast.For, ast.While, ast.With))
                   and any(is_next_call(c) for c in ast.walk(s) if isinstance(c, ast.Call))]
@@ -218,6 +232,36 @@ def _request_records_once(rep, repo, st):
                 e = e.values[0].value
             else:
                 return e
+    sentinels = module_sentinels(repo, st)
+    split_kinds = set()
+
+    def _pieces(e, cs):
+        """[(value, conditions)]: the alternatives of a conditional expression, each with the outcome of its test"""
+        e = _rendered(e)
+        if isinstance(e, ast.IfExp):
+            return _pieces(e.body, cs + [(e.test, True)]) + _pieces(e.orelse, cs + [(e.test, False)])
+        return [(e, cs)]
+
+    def _code_lookup(e, v):
+        """``v.code`` / ``getattr(v, 'code', <sentinel of the module>)``: the code, where there is one"""
+        if isinstance(e, ast.Attribute) and e.attr == 'code' and norm(e.value) == v:
+            return True
+        return isinstance(e, ast.Call) and call_name(e) == 'getattr' and len(e.args) == 3 and not e.keywords and norm(e.args[0]) == v and \
+            isinstance(e.args[1], ast.Constant) and e.args[1].value == 'code' and isinstance(e.args[2], ast.Name) and e.args[2].id in sentinels
+
+    def _has_code(cs, v):
+        """what the conditions say about ``v`` having a code: True / False / None"""
+        for t, p in cs:
+            if isinstance(t, ast.Call) and call_name(t) == 'hasattr' and len(t.args) == 2 and norm(t.args[0]) == v and \
+                    isinstance(t.args[1], ast.Constant) and t.args[1].value == 'code':
+                return p
+            if isinstance(t, ast.Compare) and len(t.ops) == 1 and isinstance(t.ops[0], (ast.Is, ast.IsNot)):
+                a, b = t.left, t.comparators[0]
+                if isinstance(a, ast.Name) and a.id in sentinels:
+                    a, b = b, a
+                if isinstance(b, ast.Name) and b.id in sentinels and _code_lookup(a, v) and isinstance(a, ast.Call) and a.args[2].id == b.id:
+                    return p is isinstance(t.ops[0], ast.IsNot)
+        return None
     for s in sv_assigns:
         hs = [p for p in _ancestors(st, s) if isinstance(p, ast.ExceptHandler)]
         val = Lq.resolve(s.value, s)
@@ -227,11 +271,24 @@ def _request_records_once(rep, repo, st):
                 exc_ok = True
                 if not (isinstance(core, ast.Call) and call_name(core) == 'getattr'):
                     computed.append(s)
+            elif hs[0].name:
+                # the same decision spelt as a test: the code where the exception has one (``hasattr`` / a sentinel lookup that did
+                # not come back with the sentinel), its class name where it has none
+                for piece, cs in _pieces(val, Lq.conds(conds(rq, s), st)):
+                    has = _has_code(cs, hs[0].name)
+                    if _code_lookup(piece, hs[0].name) and has is True:
+                        split_kinds.add('code')
+                    elif _class_name_of(piece, hs[0].name) and has is False:
+                        split_kinds.add('name')
+                    else:
+                        split_kinds.add('other')
         elif any(_lenient(val, v, 'status_code', True) or
                  any(isinstance(n, ast.Attribute) and n.attr == 'status_code' and norm(n.value) == v for n in ast.walk(val)) for v in nd):
             body_ok = True
             if not ((isinstance(core, ast.Call) and call_name(core) == 'getattr') or (isinstance(core, ast.Attribute) and core.attr == 'status_code')):
                 computed.append(s)
+    if not exc_ok and split_kinds == {'code', 'name'}:
+        exc_ok = True
     if computed:
         # the key is a function of the code, not the code: several codes would be counted under one key
         body_ok = body_ok and not any(not [p for p in _ancestors(st, s) if isinstance(p, ast.ExceptHandler)] for s in computed)
@@ -244,11 +301,7 @@ def _request_records_once(rep, repo, st):
               'status key on the exceptional path is not the exception\'s code / class name itself%s'
               % (': it is computed from it (%s)' % short(computed[0]) if computed else ''), st, rq.node)
     # Hit field order: the recorded value is Hit(...) with the arguments lined up with the namedtuple's fields
-    fields = None
-    for v in st.assigns.get('Hit', []):
-        if isinstance(v, ast.Call) and call_tail(v) == 'namedtuple' and len(v.args) >= 2:
-            f = repo.try_fold(v.args[1], st)
-            fields = f.replace(',', ' ').split() if isinstance(f, str) else (list(f) if f else None)
+    fields = _record_fields(repo, st, 'Hit')
     hc = Lq.resolve(add.args[0], stmt_of(st, add), stop=lambda n: n == status_var) if len(add.args) == 1 else None
     if not (isinstance(hc, ast.Call) and call_name(hc) == 'Hit'):
         hit_calls = [c for c in walk_body(rq.node) if isinstance(c, ast.Call) and call_name(c) == 'Hit']
@@ -266,6 +319,68 @@ def _request_records_once(rep, repo, st):
     rets = returns_of(rq)
     ok = bool(rets) and all(isinstance(r.value, ast.Name) and r.value.id in nd for r in rets)
     rep.check('R19.a', fkey(rq, 'return'), ok, 'returns the next() result' if ok else 'does not return the next() result', st, rq.node)
+
+
+def _record_fields(repo, mod, name):
+    """Declared field order of the record type module ``mod`` knows as ``name`` (imports followed): what the positional arguments of
+    its constructor mean.  ``namedtuple('N', <fields>)`` (also as the only base of a class that adds methods only), a
+    ``typing.NamedTuple`` class, a ``@dataclass`` / ``@attr.s`` class (annotated fields / ``attr.ib()`` bindings, in order), a plain class
+    whose ``__init__`` stores every parameter under its own name.  None when the type is none of these."""
+    def spec_of(call, m):
+        if isinstance(call, ast.Call) and call_tail(call) == 'namedtuple' and len(call.args) >= 2:
+            f = repo.try_fold(call.args[1], m)
+            return f.replace(',', ' ').split() if isinstance(f, str) else (list(f) if f else None)
+        return None
+    try:
+        kind, m, obj = repo.resolve(mod, name)
+    except Exception:
+        return None
+    if kind == 'value':
+        for v in obj:
+            f = spec_of(v, m)
+            if f:
+                return f
+        return None
+    if kind != 'class' or m is None or m.external:
+        return None
+    node = obj.node
+    body_defs = set(x.name for x in node.body if isinstance(x, (ast.FunctionDef, ast.AsyncFunctionDef)))
+    annotated = [x.target.id for x in node.body if isinstance(x, ast.AnnAssign) and isinstance(x.target, ast.Name)
+                 and 'ClassVar' not in norm(x.annotation)]
+    if len(node.bases) == 1 and not node.keywords:
+        b = node.bases[0]
+        if spec_of(b, m) and not body_defs & {'__new__', '__init__'}:
+            return spec_of(b, m)
+        if not node.decorator_list and ((isinstance(b, ast.Name) and m.imports.get(b.id) == ('typing', 'NamedTuple')) or
+                                        (isinstance(b, ast.Attribute) and b.attr == 'NamedTuple' and isinstance(b.value, ast.Name)
+                                         and m.imports.get(b.value.id) == ('typing', None))):
+            return annotated or None
+    decos = [norm(d.func if isinstance(d, ast.Call) else d) for d in node.decorator_list]
+    if decos and not body_defs & {'__new__', '__init__'}:
+        if any(isinstance(d, ast.Call) and any(k.arg in ('init', 'kw_only', 'these') for k in d.keywords) for d in node.decorator_list):
+            return None
+        if len(decos) == 1 and decos[0].rpartition('.')[2] == 'dataclass':
+            return annotated or None
+        if len(decos) == 1 and decos[0] in ('attr.s', 'attr.attrs', 'attr.define', 'attr.frozen', 'attrs.define', 'attrs.frozen', 'attr.dataclass'):
+            made = [t.id for x in node.body if isinstance(x, ast.Assign) and isinstance(x.value, ast.Call)
+                    and call_tail(x.value) in ('ib', 'attrib', 'attr', 'field') for t in x.targets if isinstance(t, ast.Name)]
+            if made and annotated:
+                return None         # (two ways of declaring mixed: the order is attrs' business)
+            return made or annotated or None
+        return None
+    if not decos and '__init__' in obj.methods and '__new__' not in body_defs and not node.keywords:
+        init = obj.methods['__init__']
+        a = init.node.args
+        ps = init.params()[1:]
+        if a.vararg or a.kwarg or not ps:
+            return None
+        sn = init.params()[0]
+        stored = dict((t.attr, v.id) for s_ in stmts_of(init.node) for t, v in _assign_pairs(s_)
+                      if isinstance(t, ast.Attribute) and isinstance(t.value, ast.Name) and t.value.id == sn and isinstance(v, ast.Name))
+        rebound = set(n.id for n in ast.walk(init.node) if isinstance(n, ast.Name) and isinstance(n.ctx, (ast.Store, ast.Del)))
+        if all(stored.get(p_) == p_ for p_ in ps) and not rebound & set(ps):
+            return ps
+    return None
 
 
 # ---- R19.b ---------------------------------------------------------------------------------------------------------
@@ -296,8 +411,19 @@ def _report_before_reset(rep, repo, st):
     # statements that compute the report / reset the counters (wherever the calls sit in them)
     rep_calls = report_calls(gr)
     rep_texts = set(norm(c) for c in rep_calls)
-    rep_st = _uniq(stmt_of(st, c) for c in rep_calls)
-    reset_st = _uniq(stmt_of(st, c) for c in reset_calls(gr))
+    # ... or reads the table where it stands (the report assembled in the function itself): loads of <x>.route_hits and of locals
+    # that only ever name such a table (``rt_hits = stats_mw.route_hits``)
+    aliases = set(n for n, ds in Lg.defs.items() if ds and all(isinstance(Lg._value[(id(d), n)], ast.Attribute) and
+                                                                Lg._value[(id(d), n)].attr == 'route_hits' for d in ds))
+
+    def reads(e):
+        return any((isinstance(x, ast.Call) and norm(x) in rep_texts) or
+                   (isinstance(x, ast.Attribute) and x.attr == 'route_hits' and isinstance(x.ctx, ast.Load)) or
+                   (isinstance(x, ast.Name) and x.id in aliases and isinstance(x.ctx, ast.Load)) for x in ast.walk(e))
+    read_st = [s_ for s_ in stmts_of(gr.node) if any(isinstance(x, ast.expr) and not isinstance(x, ast.Lambda) and reads(x)
+                                                      for x in diffcon._header_nodes(s_) if x is not s_)]
+    rep_st = _uniq([stmt_of(gr.mod, c) for c in rep_calls] + read_st)
+    reset_st = _uniq(stmt_of(gr.mod, c) for c in reset_calls(gr))
     if not rep_st and not reset_st:
         raise AnalysisError('get_and_reset_stats_dict: neither a get_stats_dict(...) nor a reset() call found')
     rep_nodes = cfg_gr.nodes_of_all(rep_st)
@@ -305,7 +431,7 @@ def _report_before_reset(rep, repo, st):
         all(cfg_gr.must_pass(rep_nodes, cfg_gr.entry, cfg_gr.nodes_of(r)) for r in reset_st) and \
         not (set(rep_nodes) & cfg_gr.reach(cfg_gr.nodes_of_all(reset_st), include_src=False))
     rep.check('R19.b', fkey(gr, 'report before reset'), ok, 'totals are collected before the counters are reset' if ok else
-              'reset() can run before the report is computed', st, gr.node)
+              'reset() can run before the report is computed', gr.mod, gr.node)
     # what is returned is that report: the local it was bound to, or a dict built over it (dict(report, reset=True))
     rets = returns_of(gr)
     ok = bool(rets)
@@ -313,23 +439,46 @@ def _report_before_reset(rep, repo, st):
         via = []
         v = Lg.resolve(r.value, r, via=via) if r.value is not None else None
         src = [s_ for s_ in via + [r] if s_ in rep_st]
-        good = v is not None and bool(src) and any(isinstance(c, ast.Call) and norm(c) in rep_texts for c in ast.walk(v))
+        good = v is not None and bool(src) and reads(v)
         if not good and v is not None:
             # ``ret = self.get_stats_dict(); self.reset(); return ret``: the name cannot be read as its expression any more (the
-            # reset changes what that would compute) but the object it holds is the one bound by the report statement
+            # reset changes what that would compute) but the object it holds is the one bound by the report statement -- or by a
+            # statement computing from such an object (``out = dict(ret, reset=True)``), or it is a container made empty and filled
+            # by / under statements that read the table (``ret = {}`` / ``for rt, rh in rt_hits.items(): ret[..] = ..``)
+            def holds_report(name, nodes, depth=0):
+                d = Lg.reaching(name, nodes) if nodes and depth < 4 else None
+                if d is None:
+                    return False
+                val = Lg._value[(id(d), name)]
+                if any(d is x for x in rep_st) and reads(val):
+                    return True
+                d_nodes = [n_ for n_ in cfg_gr.nodes_of(d) if cfg_gr.reachable(n_)]
+                if any(isinstance(x, ast.Name) and isinstance(x.ctx, ast.Load) and x.id != name and holds_report(x.id, d_nodes, depth + 1)
+                       for x in ast.walk(val)):
+                    return True
+                empty = (isinstance(val, (ast.Dict, ast.List)) and not (val.keys if isinstance(val, ast.Dict) else val.elts)) or \
+                    (isinstance(val, ast.Call) and call_name(val) in ('dict', 'list', 'OrderedDict') and not val.args and not val.keywords)
+                if empty:
+                    for s_ in stmts_of(gr.node):
+                        into = [t for t in (s_.targets if isinstance(s_, ast.Assign) else [s_.target] if isinstance(s_, ast.AugAssign) else [])
+                                if isinstance(t, ast.Subscript) and isinstance(t.value, ast.Name) and t.value.id == name]
+                        if isinstance(s_, ast.Expr) and isinstance(s_.value, ast.Call) and isinstance(s_.value.func, ast.Attribute) and \
+                                isinstance(s_.value.func.value, ast.Name) and s_.value.func.value.id == name:
+                            into.append(s_.value)
+                        if into and any(any(x is y for y in rep_st) for x in [s_] + [a_ for a_ in _ancestors(gr.mod, s_)
+                                                                                     if isinstance(a_, (ast.For, ast.While))]):
+                            return True
+                return False
             r_nodes = [n for n in cfg_gr.nodes_of(r) if cfg_gr.reachable(n)]
             for n in ast.walk(v):
-                if isinstance(n, ast.Name) and isinstance(n.ctx, ast.Load) and r_nodes:
-                    d = Lg.reaching(n.id, r_nodes)
-                    if d is not None and d in rep_st and \
-                            any(isinstance(c, ast.Call) and norm(c) in rep_texts for c in ast.walk(Lg._value[(id(d), n.id)])):
-                        good = True
+                if isinstance(n, ast.Name) and isinstance(n.ctx, ast.Load) and holds_report(n.id, r_nodes):
+                    good = True
         ok = ok and good
     rep.check('R19.b', fkey(gr, 'returns report'), ok, 'the pre-reset report is what is returned' if ok else
-              'the returned value is not the pre-reset report', st, gr.node)
+              'the returned value is not the pre-reset report', gr.mod, gr.node)
     ok = bool(reset_st) and cfg_gr.must_pass(cfg_gr.nodes_of_all(reset_st), cfg_gr.entry, cfg_gr.exit)
     rep.check('R19.b', fkey(gr, 'reset on every path'), ok, 'reset() runs on every normal path' if ok else
-              'a normal path skips reset()', st, gr.node)
+              'a normal path skips reset()', gr.mod, gr.node)
     rs = st.func('StatsMiddleware.reset')
     cfg_rs = cfg_of(rs)
     Ls = diffcon.Locals(rs.node, cfg_rs)
@@ -337,7 +486,7 @@ def _report_before_reset(rep, repo, st):
     ok = len(asg) == 1 and isinstance(Ls.resolve(asg[0][1], asg[0][0]), (ast.Call, ast.Dict, ast.DictComp)) and \
         cfg_rs.must_pass(cfg_rs.nodes_of(asg[0][0]), cfg_rs.entry, cfg_rs.exit)
     rep.check('R19.b', fkey(rs, 'self.route_hits'), ok, 'reset() rebinds route_hits to a freshly constructed mapping' if ok else
-              'reset() does not rebind route_hits to a fresh mapping', st, rs.node)
+              'reset() does not rebind route_hits to a fresh mapping', rs.mod, rs.node)
     # counting starts again from zero: the new table is built empty and reset() puts nothing into it
     if len(asg) == 1:
         made = Ls.resolve(asg[0][1], asg[0][0])
@@ -356,7 +505,7 @@ def _report_before_reset(rep, repo, st):
             if len(ch) >= 2 and ch[0] == sn_ and ch[1] == 'route_hits' and not (isinstance(e.node, ast.Assign) and e.node is asg[0][0] and len(ch) == 2) and seeded is None:
                 seeded = 'reset() writes into it (%s)' % short(e.node)
         rep.check('R19.b', fkey(rs, 'starts empty'), seeded is None, 'the table reset() installs is empty' if seeded is None else
-                  'the table reset() installs does not start empty: %s -- counts from before the reset are carried over' % seeded, st, asg[0][0])
+                  'the table reset() installs does not start empty: %s -- counts from before the reset are carried over' % seeded, rs.mod, asg[0][0])
     # every (route, status) cell is a reservoir of its own: the factories of the table construct, they never hand out an object
     # that already exists (one shared reservoir / inner table would add the counts of different routes or statuses together)
     if len(asg) == 1:
@@ -365,16 +514,16 @@ def _report_before_reset(rep, repo, st):
             rep.check('R19.b', fkey(rs, 'a reservoir per (route, status)'), not shared[0],
                       'the factories of the table construct a new inner table / reservoir for every missing key' if not shared[0] else
                       'the table hands out an existing object for a missing key (%s): different routes / statuses are counted in one and the '
-                      'same object, so no count is the number of requests of its route and status' % shared[1], st, asg[0][0])
+                      'same object, so no count is the number of requests of its route and status' % shared[1], rs.mod, asg[0][0])
     init = st.func('StatsMiddleware.__init__')
     cfg_i = cfg_of(init)
     Lin = diffcon.Locals(init.node, cfg_i)
-    starts = [stmt_of(st, c) for c in walk_body(init.node) if isinstance(c, ast.Call) and norm(c.func) == 'self.reset'] + \
+    starts = [stmt_of(init.mod, c) for c in walk_body(init.node) if isinstance(c, ast.Call) and norm(c.func) == 'self.reset'] + \
         [s for s in stmts_of(init.node) for t, v in _assign_pairs(s) if norm(t) == 'self.route_hits'
          and isinstance(Lin.resolve(v, s), (ast.Call, ast.Dict, ast.DictComp))]
     ok = bool(starts) and cfg_i.must_pass(cfg_i.nodes_of_all(starts), cfg_i.entry, cfg_i.exit)
     rep.check('R19.b', fkey(init, 'reset()'), ok, 'constructor initialises the counters (through reset() / a fresh mapping)' if ok else
-              'constructor no longer initialises the counters through reset()', st, init.node)
+              'constructor no longer initialises the counters through reset()', init.mod, init.node)
 
 
 def _shared_cell(repo, fi, e, anchor, L, depth=0):
@@ -432,7 +581,7 @@ def _made_value(repo, fi, body, anchor, L, what, depth):
 def _reads_table(repo, fi, depth=0, seen=()):
     """``fi`` (a function of the stats module) computes from the counters: it reads <x>.route_hits itself or through the functions
     / methods it calls, and never resets them"""
-    if fi.mod.name != STATS or depth > 3 or any(fi is f for f in seen):
+    if fi.mod.external or depth > 3 or any(fi is f for f in seen):
         return False
     reads = False
     for n in walk_body(fi.node):
@@ -488,7 +637,7 @@ def _reported_count(rep, repo, st):
     ok, why = True, ''
     for vfi, vexpr in vals:
         ls = _dict_layers(repo, vfi, vexpr)
-        idx_count = [i for i, l in enumerate(ls) if l.kind == 'literal' and 'count' in (l.keys or []) and _is_total_count(st, l.values.get('count'))]
+        idx_count = [i for i, l in enumerate(ls) if l.kind == 'literal' and 'count' in (l.keys or []) and _is_total_count(_home(repo, l.values.get('count'), vfi.mod), l.values.get('count'))]
         other_count = [i for i, l in enumerate(ls) if l.kind == 'literal' and 'count' in (l.keys or []) and i not in idx_count]
         if not idx_count:
             ok, why = False, "no 'count' entry taken from total_count among %s" % [repr(l) for l in ls]
@@ -506,18 +655,18 @@ def _reported_count(rep, repo, st):
         if not ok:
             break
     rep.check('R19.b', fkey(grs, "['count']"), ok, 'reported count is the reservoir total_count (not the sample size)' if ok else
-              'reported count is not the reservoir\'s total_count: %s' % why, st, grs.node)
+              'reported count is not the reservoir\'s total_count: %s' % why, grs.mod, grs.node)
 
 
 MAP_WRITERS = {'pop', 'popitem', 'clear', 'update', 'setdefault', '__delitem__', '__setitem__'}
 
 
 def _report_path(repo, st, start):
-    """the functions a report runs: ``start`` and everything it calls that resolves into the stats module"""
+    """the functions a report runs: ``start`` and everything it calls that resolves into the analysed tree (wherever it lives now)"""
     out = []
 
     def visit(fi):
-        if any(fi is f for f in out) or fi.mod is not st or len(out) >= 16:
+        if any(fi is f for f in out) or fi.mod.external or len(out) >= 16:
             return
         out.append(fi)
         for c in walk_body(fi.node):
@@ -558,7 +707,7 @@ def _report_read_only(rep, repo, st):
             if bad is not None:
                 break
             if isinstance(n, ast.Call) and isinstance(n.func, ast.Attribute):
-                anchor = stmt_of(st, n)
+                anchor = stmt_of(fi.mod, n)
                 if n.func.attr == 'reset' and not n.args and not n.keywords:
                     bad = (n, 'resets the counters (%s)' % short(n))
                     break
@@ -572,14 +721,14 @@ def _report_read_only(rep, repo, st):
                         if e is not None:
                             bad = (n, 'calls %s, which writes %s' % (short(n), norm(e.target)))
             elif isinstance(n, (ast.Subscript, ast.Attribute)) and isinstance(n.ctx, (ast.Store, ast.Del)):
-                anchor = stmt_of(st, n)
+                anchor = stmt_of(fi.mod, n)
                 t = _type_of(repo, fi, n.value, anchor) if anchor is not None else None
                 if t is not None and (t[0] == 'map' or (t[0] == 'inst' and isinstance(n, ast.Attribute))):
                     bad = (n, 'stores into the live statistics (%s)' % short(anchor))
         rep.check('R19.b', fkey(fi, 'report is read-only'), bad is None,
                   'computing the report changes nothing in the counters it reads' if bad is None else
                   'the report %s: a read of the statistics changes them, so the counts no longer sum to the requests since the last reset'
-                  % bad[1], st, bad[0] if bad is not None else fi.node)
+                  % bad[1], fi.mod, bad[0] if bad is not None else fi.node)
 
 
 def _report_complete(rep, repo, st):
@@ -620,7 +769,7 @@ def _report_complete(rep, repo, st):
             raise AnalysisError('%s: cannot tell whether %s %s leaves out entries that have hits' % (fi.key, where, short(test)))
         for n in walk_body(fi.node):
             gens = n.generators if isinstance(n, (ast.ListComp, ast.SetComp, ast.DictComp, ast.GeneratorExp)) else []
-            anchor = stmt_of(st, n)
+            anchor = stmt_of(fi.mod, n)
             for g in gens:
                 w = whole(g.iter, anchor)
                 if w is None:
@@ -646,13 +795,13 @@ def _report_complete(rep, repo, st):
                 for s_ in ast.walk(n):
                     if bad is not None or not isinstance(s_, (ast.Break, ast.Continue)):
                         continue
-                    inner_loops = [p for p in _ancestors(st, s_) if isinstance(p, (ast.For, ast.While))]
+                    inner_loops = [p for p in _ancestors(fi.mod, s_) if isinstance(p, (ast.For, ast.While))]
                     if not inner_loops or inner_loops[0] is not n:
                         continue
                     if isinstance(s_, ast.Break):
                         bad = 'stops before the end of the table (break)'
                         continue
-                    cs = [(t, p) for t, p in conds(fi, s_) if any(anc is n for anc in _ancestors(st, t))]
+                    cs = [(t, p) for t, p in conds(fi, s_) if any(anc is n for anc in _ancestors(fi.mod, t))]
                     if not cs:
                         bad = 'skips every entry (continue)'
                     for t, p in cs:
@@ -662,7 +811,7 @@ def _report_complete(rep, repo, st):
         for i, (node, bad) in enumerate(verdicts):
             rep.check('R19.b', fkey(fi, 'report covers the table #%d' % (i + 1)), bad is None,
                       'the loop over the statistics runs over the whole table and leaves out empty entries only' if bad is None else
-                      'the report %s: requests that were counted do not show up, the reported counts no longer sum to the requests served' % bad, st, node)
+                      'the report %s: requests that were counted do not show up, the reported counts no longer sum to the requests served' % bad, fi.mod, node)
 
 
 ROUTE_METHODS = {'GET': ('GET',), 'POST': ('POST',), 'PUT': ('PUT',), 'DELETE': ('DELETE',), 'PATCH': ('PATCH',), 'HEAD': ('HEAD',)}
@@ -678,6 +827,7 @@ def _stats_app_routes(rep, repo, st):
     """the routing table of the stats application: some route runs the report-and-reset endpoint, and no route that answers GET
     (a plain read) resets"""
     mk = st.func('create_stats_app')
+    st = mk.mod
     L = diffcon.Locals(mk.node, cfg_of(mk))
     apps = [c for c in walk_body(mk.node) if isinstance(c, ast.Call) and call_name(c) == 'Application' and (c.args or c.keywords)]
     if len(apps) != 1:
@@ -733,6 +883,7 @@ MUTATORS = {'append', 'insert', 'extend', 'pop', 'remove', 'clear', 'sort', 'rev
 
 def _reservoir_add(rep, repo, st):
     add_f = st.func('Reservoir.add')
+    st = add_f.mod      # (the class may have moved to another module of the package: its statements are looked up where it lives now)
     cfg_a = cfg_of(add_f)
     La = diffcon.Locals(add_f.node, cfg_a)      # ``samples = self._data`` ... ``samples.append(val)``
     incs = [s for s in stmts_of(add_f.node) if isinstance(s, ast.AugAssign) and norm(s.target) == 'self._total_count'
@@ -797,6 +948,7 @@ def _reservoir_add(rep, repo, st):
 
 def _reservoir_resize(rep, repo, st):
     rz = st.func('Reservoir.resize')
+    st = rz.mod
     cfg_r = cfg_of(rz)
     Lr = diffcon.Locals(rz.node, cfg_r)
     newp = [p for p in rz.params() if p != 'self'][0]
@@ -828,6 +980,7 @@ def _reservoir_init(rep, repo, st):
     # constructor: the capacity parameter doubles as a flag (True = default, False = unbounded); since 1 == True and
     # 0 == False in Python, the flag tests must be identity tests, otherwise cap=1 / cap=0 silently get another capacity
     ri = st.func('Reservoir.__init__')
+    st = ri.mod
     Li = diffcon.Locals(ri.node, cfg_of(ri))
     capp = [p for p in ri.params() if p != 'self'][0]
     flag_tests = [n for n in walk_body(ri.node) if isinstance(n, ast.Compare) and
@@ -892,7 +1045,10 @@ def _reservoir_init(rep, repo, st):
 
 def _reservoir_rest(rep, repo, st):
     # who may write the store
-    allowed = {'Reservoir.__init__', 'Reservoir.add', 'Reservoir.resize'}
+    # (the methods themselves, wherever the class lives now -- not their address)
+    res_cls = st.cls('Reservoir')
+    allowed = [f for f in (repo.find_method(res_cls, n) for n in ('__init__', 'add', 'resize')) if f is not None and not f.mod.external]
+    count_writers = [f for f in (repo.find_method(res_cls, n) for n in ('__init__', 'add')) if f is not None and not f.mod.external]
     writers = []
     for m in repo.all_internal_modules():
         for fi in m.functions.values():
@@ -900,11 +1056,11 @@ def _reservoir_rest(rep, repo, st):
                 ch = e.chain or []
                 if any(a in ch for a in ('_data', '_cap', '_total_count')):
                     writers.append((m, fi, e))
-    count_writers = {'Reservoir.__init__', 'Reservoir.add'}      # the number of values added changes only where a value is added
+    # (the number of values added changes only where a value is added)
     for m, fi, e in writers:
-        ok = m is st and fi.qualname in allowed
+        ok = any(fi is f for f in allowed)
         counts = '_total_count' in (e.chain or [])
-        if ok and counts and fi.qualname not in count_writers:
+        if ok and counts and not any(fi is f for f in count_writers):
             rep.check('R19.c', 'writer::%s::%s' % (fi.key, norm(e.target)), False,
                       '%s writes %s: the number of values added is changed by something other than adding a value (the reported '
                       'count is no longer the number of add() calls)' % (fi.key, norm(e.target)), m, e.node)
@@ -915,7 +1071,7 @@ def _reservoir_rest(rep, repo, st):
     # accessors
     tc = st.func('Reservoir.total_count')
     ok = all(diffcon.Locals(tc.node, cfg_of(tc)).text(r.value, r) == 'self._total_count' for r in returns_of(tc)) and returns_of(tc)
-    rep.check('R19.c', fkey(tc), bool(ok), 'total_count reports _total_count' if ok else 'total_count does not report _total_count', st, tc.node)
+    rep.check('R19.c', fkey(tc), bool(ok), 'total_count reports _total_count' if ok else 'total_count does not report _total_count', tc.mod, tc.node)
     it = st.func('Reservoir.__iter__')
     Lit = diffcon.Locals(it.node, cfg_of(it))
     over = lambda e, s_: Lit.text(e, s_) == DATA
@@ -925,18 +1081,18 @@ def _reservoir_rest(rep, repo, st):
         # generator spelling: ``yield from self._data`` / ``for v in self._data: yield v`` and nothing else
         ok = not rets_it
         for y in yields:
-            ys = stmt_of(st, y)
+            ys = stmt_of(it.mod, y)
             if isinstance(y, ast.YieldFrom):
                 ok = ok and (over(y.value, ys) or (isinstance(y.value, ast.Call) and call_name(y.value) == 'iter' and len(y.value.args) == 1
                                                    and over(y.value.args[0], ys)))
             else:
-                loop = st.parents.get(ys)
+                loop = it.mod.parents.get(ys)
                 ok = ok and isinstance(loop, ast.For) and len(loop.body) == 1 and not loop.orelse and over(loop.iter, loop) and \
                     isinstance(loop.target, ast.Name) and isinstance(y.value, ast.Name) and y.value.id == loop.target.id
     else:
         ok = rets_it and all(isinstance(r.value, ast.Call) and call_name(r.value) == 'iter' and len(r.value.args) == 1
                              and over(r.value.args[0], r) for r in rets_it)
-    rep.check('R19.c', fkey(it), bool(ok), 'iteration is over _data' if ok else 'iteration is not over _data', st, it.node)
+    rep.check('R19.c', fkey(it), bool(ok), 'iteration is over _data' if ok else 'iteration is not over _data', it.mod, it.node)
     # one add() on the subclass is exactly one activation of the base add (the counting / sampling judged above): the subclass
     # inherits it, or its override delegates exactly once; and no method that activation dispatches to on ``self`` (a hook the
     # subclass overrides -- resolved on the class of the receiver, not on the class the call is written in) enters add again
@@ -960,17 +1116,17 @@ def _reservoir_rest(rep, repo, st):
                     out.append(c)
         return out
     if sub is base_add:
-        rep.check('R19.c', fkey(sub, 'super().add'), True, 'RouteStatReservoir inherits Reservoir.add: one add() is one activation of it', st, sub.node)
+        rep.check('R19.c', fkey(sub, 'super().add'), True, 'RouteStatReservoir inherits Reservoir.add: one add() is one activation of it', sub.mod, sub.node)
     else:
         cfg_s = cfg_of(sub)
         selfname = _self_name(sub) or 'self'
-        sup = [stmt_of(st, c) for c in add_entries(sub) if not (isinstance(c.func.value, ast.Name) and c.func.value.id == selfname)]
+        sup = [stmt_of(sub.mod, c) for c in add_entries(sub) if not (isinstance(c.func.value, ast.Name) and c.func.value.id == selfname)]
         again = [c for c in add_entries(sub) if isinstance(c.func.value, ast.Name) and c.func.value.id == selfname]
         ok, why = _exactly_once(cfg_s, cfg_s.nodes_of_all(sup), [cfg_s.entry], [cfg_s.exit])
         if ok and again:
             ok, why = False, 'it calls %s on itself' % short(again[0])
         rep.check('R19.c', fkey(sub, 'super().add'), ok, 'RouteStatReservoir.add delegates to Reservoir.add exactly once' if ok else
-                  'RouteStatReservoir.add: ' + why, st, sub.node)
+                  'RouteStatReservoir.add: ' + why, sub.mod, sub.node)
     # the methods the activation dispatches to on the receiver itself
     hooks, todo = [], [base_add] + ([sub] if sub is not base_add else [])
     while todo:
@@ -988,7 +1144,7 @@ def _reservoir_rest(rep, repo, st):
         rep.check('R19.c', fkey(h, 'does not enter add() again'), not re_entry,
                   '%s (run by add() on the receiver) does not enter add() again' % h.qualname if not re_entry else
                   '%s is run by add() on the receiver and enters add() again (%s): one add() counts / stores more than once'
-                  % (h.qualname, short(re_entry[0])), st, (re_entry or [h.node])[0])
+                  % (h.qualname, short(re_entry[0])), h.mod, (re_entry or [h.node])[0])
 
 
 # ---- R19.d ---------------------------------------------------------------------------------------------------------
@@ -1090,18 +1246,27 @@ def _report_reads_running_instance(rep, repo, st):
                 sites.append((fi, n.func.value, n, 'calls %s.reset()' % norm(n.func.value), ctx))
             if isinstance(n, ast.Call) and isinstance(n.func, ast.Attribute) and len(seen) < 5:
                 callee, recv = _resolve_call(repo, fi, n)
-                if callee is not None and recv is not None and callee.mod is st and not any(callee is f for f in seen):
+                if callee is not None and recv is not None and not callee.mod.external and not any(callee is f for f in seen):
                     visit(callee, (fi, recv, n, ctx), seen + [callee])
-    for fi in st.functions.values():
-        if fi.cls is not None or fi.mod is not st:
+    starts = [fi for fi in st.functions.values() if fi.cls is None and fi.mod is st]
+    # (and the module-level functions the stats module imports from the analysed tree that touch the counters: an endpoint that moved)
+    for name in sorted(st.imports):
+        try:
+            kind, m, obj = repo.resolve(st, name)
+        except Exception:
             continue
+        if kind == 'func' and m is not None and not m.external and obj.cls is None and \
+                any(isinstance(n, ast.Attribute) and n.attr in ('route_hits', 'reset') for n in walk_body(obj.node)):
+            starts.append(obj)
+    for fi in starts:
         visit(fi, None, [fi])
     if len(sites) < 2:
         raise AnalysisError('stats endpoints: expected a read of <mw>.route_hits and a <mw>.reset() call, found %d' % len(sites))
+    vmod = {}
     verdicts = {}       # a method reached from several endpoints: one obligation per site, failing if any way to it fails
     order = []
     for fi, recv, node, what, ctx in sites:
-        anchor = stmt_of(st, node)
+        anchor = stmt_of(fi.mod, node)
         L = diffcon.Locals(fi.node, cfg_of(fi))
         ok, why = _judge_instance_source(repo, fi, L, recv, anchor, ctx=ctx)
         k = fkey(fi, what)
@@ -1109,14 +1274,17 @@ def _report_reads_running_instance(rep, repo, st):
             order.append(k)
         if k not in verdicts or (verdicts[k][0] and not ok):
             verdicts[k] = (ok, why, what, node)
+            vmod[k] = fi.mod
     for k in order:
         ok, why, what, node = verdicts[k]
         rep.check('R19.d', k, ok, '%s: %s' % (what, why) if ok else
-                  '%s, but %s: the counters shown / reset are not the ones the routes of the application add to' % (what, why), st, node)
+                  '%s, but %s: the counters shown / reset are not the ones the routes of the application add to' % (what, why), vmod[k], node)
     # (2) a bound route's list: merge(<route level>, <application level>), the application being the one injected later
     route = repo.mod('clastic.route')
     core = repo.mod('clastic.middleware.core')
     bi = route.func('BoundRoute.__init__')
+    route_mods = _uniq([route, bi.mod])
+    route = bi.mod
     Lb = diffcon.Locals(bi.node, cfg_of(bi))
     calls = [c for c in walk_body(bi.node) if isinstance(c, ast.Call) and call_name(c) == 'merge_middlewares']
     if len(calls) != 1 or calls[0].keywords or any(isinstance(a, ast.Starred) for a in calls[0].args):
@@ -1146,7 +1314,7 @@ def _report_reads_running_instance(rep, repo, st):
     # every place in the route module where a mapping gets an entry under that name -- a dict display, a keyword
     # of dict(..) / .update(..), a store ``d['_application'] = v`` (the injectables may be assembled in a helper method)
     provided = []
-    for f in route.functions.values():
+    for f in [f_ for m_ in route_mods for f_ in m_.functions.values() if f_.mod is m_]:
         Lf = None
         for n in ast.walk(f.node):
             vals = []
@@ -1159,7 +1327,7 @@ def _report_reads_running_instance(rep, repo, st):
             elif isinstance(n, ast.Assign):
                 vals = [n.value for t in n.targets if isinstance(t, ast.Subscript) and isinstance(t.slice, ast.Constant) and t.slice.value == APP_PARAM]
             for v in vals:
-                s_ = stmt_of(route, v)
+                s_ = stmt_of(f.mod, v)
                 if Lf is None:
                     Lf = diffcon.Locals(f.node, cfg_of(f))
                 provided.append(norm(Lf.resolve(v, s_)) if s_ is not None and cfg_of(f).nodes_of(s_) else norm(v))
@@ -1563,19 +1731,19 @@ def _type_of(repo, fi, expr, anchor, depth=0, look=True):
 
 
 def _param_type(repo, fi, name, depth):
-    """what every call site of ``fi`` (calls by plain name / method calls on an object of known class, in the module of ``fi``)
-    passes for parameter ``name``"""
+    """what every call site of ``fi`` (calls by plain name / method calls on an object of known class, anywhere in the analysed tree:
+    the function may be imported by the module that uses it) passes for parameter ``name``"""
     if depth > 8:
         return None
     ps = fi.params()
     sn = _self_name(fi)
     pos = ps.index(name) - (1 if sn else 0)
     found = []
-    for other in fi.mod.functions.values():
+    for other in [f for m in repo.all_internal_modules() for f in m.functions.values() if f.mod is m]:
         for c in walk_body(other.node):
             if not isinstance(c, ast.Call) or call_tail(c) != fi.name:
                 continue
-            anchor = stmt_of(fi.mod, c)
+            anchor = stmt_of(other.mod, c)
             callee, _recv = _resolve_call(repo, other, c, anchor, depth + 1)
             if callee is not fi:
                 if callee is None and isinstance(c.func, ast.Attribute):
@@ -1638,6 +1806,16 @@ def _dict_layers(repo, fi, expr, depth=0):
                 continue
         out.append(l)
     return out
+
+
+def _home(repo, node, hint):
+    """the module of the analysed tree whose syntax tree holds ``node`` (``hint`` first)"""
+    if node is None or node in hint.parents:
+        return hint
+    for m in repo.all_internal_modules():
+        if node in m.parents:
+            return m
+    return hint
 
 
 def _is_total_count(mod, value):
